@@ -18,6 +18,7 @@ import (
 	"encoding/binary"
 	"fmt"
 	"os"
+	"regexp"
 	"runtime/pprof"
 	"sort"
 	"strings"
@@ -37,7 +38,7 @@ import (
 // ------------------------------------------------------------------ scenario
 
 type sop struct {
-	T string `json:"t"` // W (write block B) | M (merge oldest temp into permanent) | C (clean removed temps, keep N)
+	T string `json:"t"` // W (write block B) | M (merge oldest temp into permanent) | C (clean removed temps, keep N) | R (RemoveBlocks(N): roll back the temps of height >= N)
 	B int    `json:"b,omitempty"`
 	N int    `json:"n,omitempty"`
 }
@@ -157,6 +158,11 @@ func execScenario(sc scenario) (*run, error) {
 			if err := d.center.VerifCleanRemoved(o.N); err != nil {
 				return nil, fmt.Errorf("clean removed: %w", err)
 			}
+		case "R":
+			if removed, err := d.center.RemoveBlocks(base.Height(o.N)); err != nil || !removed {
+				return nil, fmt.Errorf("remove blocks %d: removed=%v %w", o.N, removed, err)
+			}
+			last = o.N - 1
 		}
 		r.spans = append(r.spans, span{op: o, a: a, b: len(tee.records()), last: before, lastAfter: last})
 	}
@@ -655,12 +661,59 @@ func stdScenario(name string, seed uint64, big int, mapFirst bool, cleanKeep int
 	}
 }
 
+// rollback of big temps (RemoveBlocks) and removal of big merged temps (cleanRemoved)
+func rollbackScenario(name string, seed uint64, big1, big2 int) scenario {
+	return scenario{
+		Name: name, Seed: seed, MapFirst: true,
+		Blocks: []blockSpec{
+			{H: 0, N: 5, First: 2, Suf: true, Pol: true, NKnown: 2},
+			{H: 1, N: 4, First: 4, NKnown: 1},
+			{H: 2, N: big1, First: 2, Suf: true, Pol: true, NKnown: 3},
+			{H: 3, N: big2, First: 5, NKnown: 2},
+			{H: 4, N: 4, First: 3, Suf: true, NKnown: 1},
+		},
+		Ops: []sop{
+			{T: "W", B: 0}, {T: "W", B: 1}, {T: "M"}, {T: "W", B: 2}, {T: "W", B: 3}, {T: "W", B: 4},
+			{T: "R", N: 3}, {T: "M"}, {T: "C", N: 0}, {T: "R", N: 2},
+		},
+	}
+}
+
+// batchLimit: the key-count limit of one batch of the permanent merge, as regenerated from the Go source by the
+// translator (coq/Gen/C21.v, perm_batchlimit_ints); 333 when it cannot be read.  The "big" blocks of the
+// scenarios are sized from it so that they always span several batches.
+func batchLimit() int {
+	limit := 333
+	dir := os.Getenv("VERIF_DIR")
+	if dir == "" {
+		dir = "/verif"
+	}
+	b, err := os.ReadFile(dir + "/coq/Gen/C21.v")
+	if err != nil {
+		return limit
+	}
+	m := regexp.MustCompile(`perm_batchlimit_ints[^\[]*\[([^\]]*)\]`).FindSubmatch(b)
+	if m == nil {
+		return limit
+	}
+	for _, x := range regexp.MustCompile(`\d+`).FindAll(m[1], -1) {
+		var n int
+		fmt.Sscanf(string(x), "%d", &n)
+		if n > limit && n < 100000 {
+			limit = n
+		}
+	}
+	return limit
+}
+
 func phase(o sop) string {
 	switch o.T {
 	case "W":
 		return "block-write"
 	case "M":
 		return "perm-merge"
+	case "R":
+		return "remove-blocks"
 	default:
 		return "remove-temp"
 	}
@@ -708,6 +761,28 @@ func runScenario(o *vh.Opts, sc scenario, res *vh.Result, cases *vh.Cases, coqPo
 			res.Dist("crash:" + ph)
 			if rd[k].err != "" {
 				res.Fail("crash-recovery-error", fmt.Sprintf("%s: crash after write %d (%s %+v): startup fails: %s", sc.Name, k, ph, sp.op, rd[k].err), replay{Scenario: sc, K: k})
+				continue
+			}
+			if sp.op.T == "R" {
+				// a rollback removes the temps newest first, one after the other: after a stop the chain must end at
+				// some height between the target and the old last height, every block up to it complete
+				ok, first := false, ""
+				for L := sp.lastAfter; L <= sp.last && !ok; L++ {
+					d := w.specCheck(rd[k], L)
+					if d == "" {
+						ok = true
+					} else if first == "" || strings.HasPrefix(d, "state") || strings.HasPrefix(d, "inop") || strings.HasPrefix(d, "known") {
+						first = d
+					}
+				}
+				if verbose {
+					fmt.Printf("k=%d %s %+v consistent=%v %s\n", k, ph, sp.op, ok, first)
+				}
+				if !ok {
+					res.Fail(ph+"-partial-visible", fmt.Sprintf("%s: crash after write %d of [%d,%d) (%s %+v): the reads match no chain ending at a height in [%d,%d], e.g. %s",
+						sc.Name, k, sp.a, sp.b, ph, sp.op, sp.lastAfter, sp.last, first), replay{Scenario: sc, K: k})
+				}
+				points = append(points, point{k: k, rd: rd[k]})
 				continue
 			}
 			okA, dA := sameReads(rd[k], rd[sp.a])
@@ -768,7 +843,7 @@ func runScenario(o *vh.Opts, sc scenario, res *vh.Result, cases *vh.Cases, coqPo
 	}
 	var sps []string
 	for _, sp := range r.spans {
-		kind := map[string]string{"W": "SBlockWrite", "M": "SPermMerge", "C": "SRemoveTemp"}[sp.op.T]
+		kind := map[string]string{"W": "SBlockWrite", "M": "SPermMerge", "C": "SRemoveTemp", "R": "SRemoveTemp"}[sp.op.T]
 		sps = append(sps, fmt.Sprintf("(%s, %d, %d)", kind, sp.a, sp.b))
 	}
 	cases.Add("("+vh.List(recs)+",\n "+vh.List(sps)+",\n "+vh.List(pts)+")", map[string]any{"scenario": sc, "points": len(pts)})
@@ -795,11 +870,15 @@ func main() {
 		res.Failures = []vh.Failure{}
 	}
 	cases := &vh.Cases{Import: "From MV Require Import C21.Model.", Type: "case", CheckFn: "check", Shard: 1}
+	// the big blocks have more keys than one batch of the permanent merge / of BatchRemove (333, see Gen/C21.v)
+	bl := batchLimit()
+	res.Distribution["batch_limit"] = bl
 	scs := []scenario{
-		stdScenario("big800-writer-order", 11, 800, false, 0),
-		stdScenario("big340-map-first", 12, 340, true, 1),
+		stdScenario("big800-writer-order", 11, 2*bl+134, false, 0),
+		rollbackScenario("rollback-big400-340", 13, bl+67, bl+7),
 	}
 	if o.Thorough() {
+		scs = append(scs, stdScenario("big340-map-first", 12, 340, true, 1), rollbackScenario("rollback-big170-600", 14, 170, 600))
 		r := vh.NewRand(o.Seed)
 		for i := 0; i < 10; i++ {
 			// total keys of the big block around multiples of the batch sizes (333 permanent, 128 block write)
